@@ -13,6 +13,7 @@ pub trait Round: Copy {
 }
 //@@ INCLUDE lib/round_float_repr.rs
 //@@ INCLUDE lib/conv_float.rs
+//@@ INCLUDE lib/conv_float_int.rs
 //@@ INCLUDE lib/conv_enc.rs
 //@@ INCLUDE lib/conv_sign_float.rs
 //@@ INCLUDE lib/conv_float_stubs.rs
